@@ -27,7 +27,6 @@ import (
 	"encoding/json"
 	"errors"
 	"fmt"
-	"os"
 	"runtime"
 	"sort"
 	"strings"
@@ -192,13 +191,13 @@ type env struct {
 	hist          []string
 
 	// schedule control of the store step's tail
-	holdArmed        int // 0 = no, armAny = the next store step, armTip = the next store step that brings the node level with the source
-	held             *hold
-	holdsStarted     int
-	holdTimeouts     int
-	lastHeldNum      uint64
-	lastHeldEvIdx    int // index in events at which the held block's store will be recorded; -1 = none
-	heldThenReverted int
+	holdArmed          int // 0 = no, armAny = the next store step, armTip = the next store step that brings the node level with the source
+	held               *hold
+	holdsStarted       int
+	holdTimeouts       int
+	lastHeldNum        uint64
+	lastHeldEvIdx      int // index in events at which the held block's store will be recorded; -1 = none
+	heldThenReverted   int
 	reorgSeenWhileHeld int // reorg checks answered, while a store step is held, with a head that differs from the node's block
 
 	// announced chain: what a subscriber of both feeds knows (starts as the chain at subscription time)
@@ -1236,9 +1235,9 @@ func runCase(rt *rapid.T, c *stats.Case, known bool) {
 			v = e.view()
 		}
 		// schedule control of the store step's tail
-		ctl := rapid.IntRange(0, 99).Draw(rt, "ctl")
+		ctl := gen.Uniform(rt, 100, "ctl") // uniform (rapid's IntRange favours small values); 0 = plain step, so cases shrink towards no holds
 		switch {
-		case v.held >= 0 && (len(v.pending) == 0 || ctl < 8):
+		case v.held >= 0 && (len(v.pending) == 0 || ctl >= 92):
 			if len(v.pending) == 0 {
 				c.Label("hold-released:nothing-parked")
 			} else {
@@ -1252,7 +1251,7 @@ func runCase(rt *rapid.T, c *stats.Case, known bool) {
 				return
 			}
 			continue
-		case v.held < 0 && !v.armed && ctl < 14:
+		case v.held < 0 && !v.armed && ctl >= 78:
 			kind := armAny
 			if rapid.Bool().Draw(rt, "armTip") {
 				kind = armTip
@@ -1267,11 +1266,11 @@ func runCase(rt *rapid.T, c *stats.Case, known bool) {
 		if v.held < 0 {
 			heldReorged = false
 		}
-		heldReorg := v.held >= 0 && ctl < 50 && !heldReorged
+		heldReorg := v.held >= 0 && ctl >= 50 && !heldReorged
 		var focus []pview
 		if v.held >= 0 {
 			c.Label("step-while-store-held")
-			if ctl < 50 && heldReorged {
+			if ctl >= 50 && heldReorged {
 				for _, p := range v.pending {
 					if p.kind == kBlock && p.num == uint64(v.held)+1 || p.kind == kLatest && !p.poll {
 						focus = append(focus, p)
@@ -1523,9 +1522,6 @@ func runCase(rt *rapid.T, c *stats.Case, known bool) {
 	e.mu.Unlock()
 	if nHeld > 0 {
 		c.Label("store-step-held>=1")
-		if os.Getenv("C06_DUMP") != "" {
-			fmt.Fprintf(os.Stderr, "=====CASE\n%s\n", r.history())
-		}
 	}
 	if nHeld >= 2 {
 		c.Label("store-step-held>=2")
